@@ -187,6 +187,16 @@ def run_case(col, case, only_rect=None):
         sig = dict(base_sig, clause=clause, **extra)
         col.violation(sig, what, dict(case, rect=rect))
 
+    ac = case.get("after_create")
+    if ac:
+        # history: the widget exists already when the environment changes
+        base_sig["history"] = "environment-changed-after-widget-creation:" + ("cell_ratio" if "cell_ratio" in ac else "cell_size")
+        if "cell_ratio" in ac:
+            L.ti.set_cell_ratio(ac["cell_ratio"])
+        else:       # the terminal is resized by one column and now has another cell size (memos are keyed on the size)
+            tty = world.W.tty
+            tty.cols += 1
+            tty.xpx, tty.ypx = tty.cols * ac["cell"][0], tty.rows * ac["cell"][1]
     col.count()
     if len(size) == 1:
         announced = widget.rows(size)
@@ -471,6 +481,19 @@ def build_cases(tier):
                             for upscale in (False, True):
                                 cases.append(dict(kind=kind, img=img, size=list(size), h=h, v=v, upscale=upscale,
                                                   alpha="", cell_ratio=ratio))
+        # histories: the environment (cell ratio for text styles, the terminal's cell size for graphics styles)
+        # changes AFTER the widget was created; rows() must still announce what render() then produces
+        for img in ("3x2", "2x4", "6x1", "1x4"):
+            for c in range(1, 11):
+                for upscale in (False, True):
+                    if fam == "block":
+                        for ratio in (1.0, 0.25):
+                            cases.append(dict(kind=kind, img=img, size=[c], h="|", v="-", upscale=upscale, alpha="",
+                                              rows_only=True, after_create=dict(cell_ratio=ratio)))
+                    else:
+                        for cell in ((4, 3), (2, 6), (1, 1)):
+                            cases.append(dict(kind=kind, img=img, size=[c], h="|", v="-", upscale=upscale, alpha="",
+                                              rows_only=True, after_create=dict(cell=list(cell))))
         if style == "kitty" or kind == "iterm2-lines@konsole":
             # images that carry a disguise (kitty; iterm2 on konsole): every disguise state
             for dis in ((1, 0), (2, 0), (0, 1), (2, 2)):
